@@ -104,6 +104,11 @@ Section Spec.
     forall u, In u (members g) ->
       (forall v e, In (v, e) (outs h u) -> In v (members g)) /\
       (forall v e, In (v, e) (ins h u) -> In v (members g)).
+  (* only the OUT-neighbours (the edges a directed container serialises): what the directed round trip needs *)
+  Definition ClosedOut (h : heap) (g : graph K) : Prop :=
+    forall u, In u (members g) -> forall v e, In (v, e) (outs h u) -> In v (members g).
+  Definition ClosedIn (h : heap) (g : graph K) : Prop :=
+    forall u, In u (members g) -> forall v e, In (v, e) (ins h u) -> In v (members g).
   (* the observed iteration order lists every bound key exactly once *)
   Definition OrderOK (g : graph K) (order : list K) : Prop := Permutation order (map (@fst K nat) g).
   Definition accept_all : edge -> bool := fun _ => true.
